@@ -59,7 +59,7 @@ OP_FAULTS = ["optional_path_param", "duplicate_param", "unparseable_body", "unsu
 
 @st.composite
 def cases(draw, tier):
-    prof = docs.profile(max_schemas=5, max_props=3, max_ops=3, max_depth=1, desc=False, allof=True, component_unions=True, prefix_items=True)
+    prof = docs.profile(max_schemas=5, max_props=3, max_ops=3, max_depth=1, desc=False, allof=True, component_unions=True, prefix_items=True, affix_names=True)
     ir = draw(docs.doc_ir(prof, min_schemas=2))
     n = draw(st.integers(1, 3))
     ins = []
@@ -394,7 +394,7 @@ def run(case, ctx):
                 ctx.violation("unrelated.identical_bytes", {**site0, "owner": own[0]}, f"{rel} changed; owner {own}")
         for own in missing_owners:
             ident = own[1] if own[0] == "schema" else f"{ir['ops'][own[1]]['method'].upper()} {ir['ops'][own[1]]['path']}"
-            if str(ident) not in diag:
+            if not sut.names_item(diag, str(ident)):
                 ctx.violation("omitted.identified_by_diagnostic", {**site0, "owner": own[0]}, f"{ident} omitted without being named; diag={diag[:200]!r}")
         # models/__init__.py: may only list more or fewer names
         a0 = snap0.get("models/__init__.py", b"").decode("utf-8", "replace")
